@@ -491,6 +491,11 @@ def _check_config(cx: "Ctx", cfg_name: str, family: str, ctor: str, kind: str, t
     # ------------------------------------------------------------------ (1d)+(3) eager step, arguments intact
     t0 = time.time()
     order = seeded_order(N, seed, "eager-step")
+    # stratify: the first two eager calls are a transition out of a reset state and one of the deepest ones
+    depth_of = [len(pth) for pth in T["path"]]
+    shallow = next(i for i in order if depth_of[i] == min(depth_of))
+    deep = next(i for i in order if depth_of[i] == max(depth_of))
+    order = [shallow, deep] + [i for i in order if i not in (shallow, deep)]
     slow = family in SLOW_EAGER
     eager_cost: List[float] = []
     n_eager_step = 0
